@@ -45,6 +45,10 @@ def main():
         rc, o = sh('/venv/bin/python %s' % demo, cwd=tree, timeout=600)
         out['demo_unchanged_rc'] = rc
         rc, o = sh('git apply %s' % os.path.join(seed, 'patch.diff'), cwd=tree)
+        if rc != 0:
+            # the tree may have moved on since the patch was written: try a 3-way merge
+            rc, o = sh('git apply -3 %s' % os.path.join(seed, 'patch.diff'), cwd=tree)
+            out['applied_3way'] = rc == 0
         out['patch_applies'] = rc == 0
         if rc != 0:
             out['apply_error'] = o[-300:]
